@@ -1,6 +1,8 @@
 import Ivg.Lemmas.LoopC01
 import Ivg.Lemmas.Header
 import Ivg.Lemmas.Converse
+import Ivg.Lemmas.VBMono
+import Ivg.Lemmas.EncoderHist
 import Ivg.Gen.Tie.Dc1
 import Ivg.Gen.Tie.DefaultViewBox
 import Ivg.Gen.Tie.DrawOps
@@ -18,7 +20,7 @@ increment flags, arc flags and colours unchanged.  The round-trip functions are 
 (`Ivg/Lemmas/Codec.lean`: exact when a short form applies, else `trunc30`, the 30-bit float).
 -/
 namespace Ivg.Props.C01
-open Ivg Num Enc Dec Codec RoundTrip EncoderInv Header LoopC01 DecoderProto Converse
+open Ivg Num Enc Dec Codec RoundTrip EncoderInv Header LoopC01 DecoderProto Converse VBMono EncoderHist
 
 /-- **Forward direction, full strength on structure.**  For every viewBox that is valid after the
     coordinate round trip (or is the default), every premultiplied suggested palette, either resolution
@@ -80,14 +82,151 @@ example : Proto false
 example : VBValid ⟨⟨0xc1c00000⟩, ⟨0xc1c00000⟩, ⟨0x41c00000⟩, ⟨0x41c00000⟩⟩ := by
   unfold VBValid rtVB; decide +kernel
 
+/-! ## every finite, ordered viewBox is acceptable -/
+
+/-- **Forward direction with hypotheses on the metadata as the caller hands it over.**  `VBFiniteOrdered vb`
+    is the decoder's own viewBox test applied to `vb` (four finite components, `¬ maxX < minX`,
+    `¬ maxY < minY`; equivalently `minX ≤ maxX ∧ minY ≤ maxY`, `vbFiniteOrdered_iff`; zero width or height
+    allowed, as in the decoder).  The coordinate round trip `rtCoord` is monotone (`rtCoord_mono`), so the
+    viewBox the Encoder writes is accepted, whether or not its bounds are representable in 30 bits. -/
+theorem encode_decode_valid (vb : ViewBox F32) (pal : Palette) (hi : Bool) (p : List (Call F32)) (endPath : Bool)
+    (hv : VBFiniteOrdered vb) (hp : ∀ c ∈ pal.toList, c.validPremul = true)
+    (hproto : Proto false p endPath) :
+    let e := ({ (({} : Encoder).reset vb pal) with hiRes := hi } : Encoder).run p
+    ∃ bs, e.bytes.2 = .ok bs ∧ Dec.decode [] bs = (.reset (rtViewBox vb) pal :: p.map (Q hi), none) :=
+  encode_decode vb pal hi p endPath (fun _ => vbValid_of_finite_ordered vb hv) hp hproto
+
+/-- the hypothesis of `encode_decode` characterised on `vb` itself: exactly the viewBoxes with four finite
+    components whose 30-bit images `trunc30` are ordered survive (so `VBFiniteOrdered` is sufficient but
+    not necessary: see `VBMono.repair_example`) -/
+theorem vbValid_iff (vb : ViewBox F32) :
+    VBValid vb ↔
+      isNaNOrInfinity vb.minX = false ∧ isNaNOrInfinity vb.minY = false ∧
+      isNaNOrInfinity vb.maxX = false ∧ isNaNOrInfinity vb.maxY = false ∧
+      trunc30 vb.minX ≤ trunc30 vb.maxX ∧ trunc30 vb.minY ≤ trunc30 vb.maxY :=
+  VBMono.vbValid_iff vb
+
+/-- the monotonicity behind it: float `≤` (operands not NaN) survives the coordinate round trip -/
+theorem rtCoord_mono {a b : F32} (h : a ≤ b) : rtCoord a ≤ rtCoord b := VBMono.rtCoord_mono h
+
+/-- non-vacuity: `[-1/3, 1/3]²`; `1/3 = 0x3eaaaaab` is not representable in 30 bits, the decoder reports
+    `0x3eaaaaac` -/
+example : VBFiniteOrdered vbThird ∧ vbNeDefault vbThird = true ∧
+    rtViewBox vbThird = ⟨⟨0xbeaaaaac⟩, ⟨0xbeaaaaac⟩, ⟨0x3eaaaaac⟩, ⟨0x3eaaaaac⟩⟩ ∧ rtViewBox vbThird ≠ vbThird := by
+  have h : rtViewBox vbThird = ⟨⟨0xbeaaaaac⟩, ⟨0xbeaaaaac⟩, ⟨0x3eaaaaac⟩, ⟨0x3eaaaaac⟩⟩ := by
+    unfold rtViewBox; rw [vbThird_ne_default, if_pos rfl, vbThird_rt]
+  refine ⟨vbThird_finite_ordered, vbThird_ne_default, h, ?_⟩
+  rw [h]; decide
+
+/-- boundary behaviour: strictly ordered bounds may collapse (`[1, 0x3f800001] ↦ [1, 1]`), which the
+    decoder accepts because its test is `max < min`; and a viewBox inverted by less than the rounding
+    (`[0x3f800001, 1]`) is repaired to `[1, 1]` although the decoder would reject it unrounded -/
+example : VBValid ⟨⟨0x3f800000⟩, ⟨0⟩, ⟨0x3f800001⟩, ⟨0x3f800000⟩⟩ ∧
+    ¬ VBFiniteOrdered ⟨⟨0x3f800001⟩, ⟨0⟩, ⟨0x3f800000⟩, ⟨0x3f800000⟩⟩ ∧
+    VBValid ⟨⟨0x3f800001⟩, ⟨0⟩, ⟨0x3f800000⟩, ⟨0x3f800000⟩⟩ :=
+  ⟨collapse_example.2.2.2, repair_example.1, repair_example.2⟩
+
+/-! ## the resolution may change at any time -/
+
+/-- **Forward direction for histories over the whole Encoder API.**  `h` interleaves calls (which obey the
+    protocol: `Proto` on `callsIn h`) with assignments `setHiRes b` of `HighResolutionCoordinates` and with
+    the reads `readCSel`, `readNSel`, `readLOD`, `bytes`, all of them anywhere, also inside a path.  `Bytes`
+    succeeds and the decoder delivers `Reset` followed by the calls of `h` in order, each quantised at its
+    own resolution `resAt false h i` (`delivered`): the value of the exported flag at the last `StartPath`
+    up to and including entry `i`.  So an assignment inside a path takes effect at the next `StartPath`,
+    whose own two operands are already written at the new value; `Reset` sets the flag to `false`. -/
+theorem encode_decode_hist (vb : ViewBox F32) (pal : Palette) (h : List EncOp) (endPath : Bool)
+    (hv : vbNeDefault vb = true → VBValid vb) (hp : ∀ c ∈ pal.toList, c.validPremul = true)
+    (hproto : Proto false (callsIn h) endPath) :
+    let e := ((({} : Encoder).reset vb pal).runOps h).1
+    ∃ bs, e.bytes.2 = .ok bs ∧ Dec.decode [] bs = (.reset (rtViewBox vb) pal :: delivered false h, none) := by
+  intro e
+  have h1 := invH_runOps dstep h _ [] false endPath (invH_reset {} vb pal) hproto
+  obtain ⟨body, hb, hdec⟩ := invH_bytes dstep h1
+  refine ⟨_, hb, ?_⟩
+  rw [header_decodes _ vb pal hv hp body, hdec, Dc_nil, delivered_eq]
+  have e1 : (({} : Encoder).reset vb pal).hiRes = false := rfl
+  have e2 : (({} : Encoder).reset vb pal).hiResLocal = false := rfl
+  simp [e1, e2]
+
+/-- the same with the hypothesis on the viewBox as handed over -/
+theorem encode_decode_hist_valid (vb : ViewBox F32) (pal : Palette) (h : List EncOp) (endPath : Bool)
+    (hv : VBFiniteOrdered vb) (hp : ∀ c ∈ pal.toList, c.validPremul = true)
+    (hproto : Proto false (callsIn h) endPath) :
+    let e := ((({} : Encoder).reset vb pal).runOps h).1
+    ∃ bs, e.bytes.2 = .ok bs ∧ Dec.decode [] bs = (.reset (rtViewBox vb) pal :: delivered false h, none) :=
+  encode_decode_hist vb pal h endPath (fun _ => vbValid_of_finite_ordered vb hv) hp hproto
+
+/-- the same for a reused Encoder (`Reset` forgets the old flag, too); and since a prefix of a
+    protocol-respecting history is protocol-respecting (`endPath` is free), the theorem applied to the prefix
+    before a `bytes` entry describes what that intermediate `Bytes()` returns -/
+theorem encode_decode_hist_reused (e₀ : Encoder) (vb : ViewBox F32) (pal : Palette) (h : List EncOp)
+    (endPath : Bool) (hv : vbNeDefault vb = true → VBValid vb) (hp : ∀ c ∈ pal.toList, c.validPremul = true)
+    (hproto : Proto false (callsIn h) endPath) :
+    let e := ((e₀.step (.reset vb pal)).runOps h).1
+    ∃ bs, e.bytes.2 = .ok bs ∧ Dec.decode [] bs = (.reset (rtViewBox vb) pal :: delivered false h, none) :=
+  encode_decode_hist vb pal h endPath hv hp hproto
+
+/-- `encode_decode` is the instance "one assignment, then the program": everything at that value -/
+theorem delivered_const (hi : Bool) (p : List (Call F32)) (endPath : Bool) (hproto : Proto false p endPath) :
+    delivered false (.setHiRes hi :: p.map .call) = p.map (Q hi) := by
+  rw [delivered_eq]
+  exact deliv_const hi p false false endPath hproto (by simp)
+
+/-- non-vacuity: the flag is assigned before the first path, inside it (no effect on that path) and
+    inside the second path (no effect at all); `bytes` is read in the middle of a run; the resolutions in
+    force entry by entry -/
+def exampleHist : List EncOp :=
+  [.setHiRes true, .call (.setCSel 1), .call (.startPath 0 ⟨0x3eaaaaab⟩ ⟨0x3eaaaaab⟩),
+   .call (.d2 .L ⟨0x3eaaaaab⟩ ⟨0x3eaaaaab⟩), .setHiRes false, .bytes, .call (.d2 .L ⟨0x3eaaaaab⟩ ⟨0x3eaaaaab⟩),
+   .call .closeEnd, .readCSel, .call (.startPath 0 ⟨0x3eaaaaab⟩ ⟨0x3eaaaaab⟩), .call (.d1 .H ⟨0x3eaaaaab⟩),
+   .setHiRes true, .call .closeEnd]
+
+example : Proto false (callsIn exampleHist) false := by
+  simp [exampleHist, callsIn, Proto, StylingOK, IsDrawing, drawOpOf]
+
+example : (List.range exampleHist.length).map (resAt false exampleHist) =
+    [false, false, true, true, true, true, true, true, true, false, false, false, false] := by decide
+
+/-- … and what the decoder delivers for it: the first path at high resolution (`1/3 ↦ 0x3eaaaaac`), the
+    second at low resolution (`1/3 ↦ 21/64 = 0x3ea80000`) -/
+example : delivered false exampleHist =
+    [.setCSel 1, .startPath 0 ⟨0x3eaaaaac⟩ ⟨0x3eaaaaac⟩, .d2 .L ⟨0x3eaaaaac⟩ ⟨0x3eaaaaac⟩,
+     .d2 .L ⟨0x3eaaaaac⟩ ⟨0x3eaaaaac⟩, .closeEnd, .startPath 0 ⟨0x3ea80000⟩ ⟨0x3ea80000⟩, .d1 .H ⟨0x3ea80000⟩,
+     .closeEnd] := by
+  have h1 : qc true ⟨0x3eaaaaab⟩ = ⟨0x3eaaaaac⟩ := by decide +kernel
+  have h2 : qc false ⟨0x3eaaaaab⟩ = ⟨0x3ea80000⟩ := by decide +kernel
+  have h3 : ((1 : UInt8) &&& 0x3f) = 1 := by decide
+  simp [delivered_eq, exampleHist, deliv, track, Q, h1, h2, h3]
+
+/-- a `Bytes()` in the middle of a run is visible in the final stream (the run `L L` is written as two
+    chunks of one instead of one chunk of two: one byte more) but not in what the stream decodes to
+    (`encode_decode_hist` holds for both histories, with the same `delivered`) -/
+example :
+    let hA : List EncOp := [.call (.startPath 0 ⟨0x3f800000⟩ ⟨0x3f800000⟩), .call (.d2 .L ⟨0x40000000⟩ ⟨0x40000000⟩),
+      .call (.d2 .L ⟨0x40400000⟩ ⟨0x40400000⟩)]
+    let hB : List EncOp := [.call (.startPath 0 ⟨0x3f800000⟩ ⟨0x3f800000⟩), .call (.d2 .L ⟨0x40000000⟩ ⟨0x40000000⟩),
+      .bytes, .call (.d2 .L ⟨0x40400000⟩ ⟨0x40400000⟩)]
+    let out := fun (h : List EncOp) =>
+      match ((({} : Encoder).reset defaultViewBox defaultPalette).runOps h).1.bytes.2 with
+      | .ok bs => bs | .error _ => []
+    out hA = [0x89, 0x49, 0x56, 0x47, 0x00, 0xc0, 0x82, 0x82, 0x01, 0x84, 0x84, 0x86, 0x86] ∧
+    out hB = [0x89, 0x49, 0x56, 0x47, 0x00, 0xc0, 0x82, 0x82, 0x00, 0x84, 0x84, 0x00, 0x86, 0x86] ∧
+    delivered false hA = delivered false hB := by
+  refine ⟨by decide +kernel, by decide +kernel, ?_⟩
+  simp [delivered_eq, deliv, track]
+
 /-!
 ## Not proved here (documented gaps)
-* In the forward direction `VBValid` is stated on the round-tripped viewBox; that an arbitrary finite valid
-  viewBox stays valid under the 30-bit truncation needs monotonicity of `rtCoord` (not proved).  In the
-  converse direction this is proved (`vbValid_of_accepted`): decoder outputs re-encode to numerically equal values.
 * "never drifts": idempotence of `Q hi` up to float `==` for coordinates and reals is in C08
   (`roundtrip_idempotent`); for `quantize` it is monitored only.
-* Per-path change of resolution (`setHiRes` between paths) is covered by the correspondence runs only.
+* `encode_decode_hist` starts at `Reset`, which sets `HighResolutionCoordinates` to `false`; a `Reset` in the
+  middle of a history starts a new stream (`encode_decode_reused`) and is not part of `Proto`.
+* Histories that violate the protocol (they set the sticky error; C16/C17) are outside this property.
+
+Closed since the first version: monotonicity of the coordinate round trip and hence validity of every finite,
+ordered viewBox (`encode_decode_valid`, `vbValid_iff`); change of resolution between and inside paths,
+reads and `Bytes()` in the middle (`encode_decode_hist`).
 -/
 
 end Ivg.Props.C01
@@ -95,4 +234,9 @@ end Ivg.Props.C01
   Ivg.Props.C01.decode_encode, Ivg.Props.C01.transcode_accepted, Ivg.DecoderProto.decode_accepted_shape,
   Ivg.Converse.vbValid_of_accepted,
   Ivg.EncoderInv.inv_run, Ivg.EncoderInv.chunks_dec, Ivg.Header.header_decodes, Ivg.LoopC01.loop_fuel,
-  Ivg.Gen.Tie.drawOps_tie, Ivg.Gen.Tie.magic_tie, Ivg.Gen.Tie.dc1Table_tie, Ivg.Gen.Tie.defaultViewBox_tie]
+  Ivg.Gen.Tie.drawOps_tie, Ivg.Gen.Tie.magic_tie, Ivg.Gen.Tie.dc1Table_tie, Ivg.Gen.Tie.defaultViewBox_tie,
+  Ivg.Props.C01.encode_decode_valid, Ivg.Props.C01.vbValid_iff, Ivg.Props.C01.rtCoord_mono,
+  Ivg.VBMono.vbValid_of_finite_ordered, Ivg.VBMono.T_key_mono, Ivg.VBMono.toOrd_rtCoord,
+  Ivg.Props.C01.encode_decode_hist, Ivg.Props.C01.encode_decode_hist_valid, Ivg.Props.C01.encode_decode_hist_reused,
+  Ivg.Props.C01.delivered_const,
+  Ivg.EncoderHist.invH_runOps, Ivg.EncoderHist.invH_bytes, Ivg.EncoderHist.delivered_eq]
